@@ -1080,8 +1080,11 @@ func (c *SpecCtx) call(n *ECall) TV {
 		}
 		_, unbox, _ := c.e.boxName(t)
 		sorts := leafSorts(t)
+		if len(sorts) > 1 {
+			return TV{c.e.unboxMulti(unbox, t, sorts, a.V.(Sc).T), t}
+		}
 		if len(sorts) != 1 {
-			c.fail("unbox of multi-word type")
+			c.fail("unbox of an empty type")
 		}
 		c.e.declareFun(unbox, []string{SInt}, sorts[0])
 		return TV{Sc{app(sorts[0], smtSym(unbox), a.V.(Sc).T)}, t}
